@@ -308,6 +308,20 @@ pub fn layer1_cases(tier: Tier, seed: u64) -> Vec<Case> {
             }
         }
     }
+    // special private keys on either side and on both: 0, 1, 2, N-1, N, N+1, all ones (shortcuts for "trivial" exponents,
+    // keys replaced on one path only)
+    {
+        let special: Vec<[u8; 32]> = vec![[0u8; 32], le32_from_u64(1), le32_from_u64(2), n_plus(-1), n_plus(0), n_plus(1), [0xFF; 32]];
+        let other = { let mut k = refmodel::ctr_array::<32>(seed, "special-other"); k[31] &= 0x7F; k };
+        for sp in &special {
+            for (ci, c) in [("alice", "password123"), ("A", "A")].iter().enumerate() {
+                let salt = ss[ci % ss.len()];
+                v.push(Case { layer: "special-private-keys", reg_user: c.0.into(), reg_pass: c.1.into(), typed_user: c.0.to_ascii_uppercase(), typed_pass: c.1.to_ascii_lowercase(), salt, b: *sp, a: other });
+                v.push(Case { layer: "special-private-keys", reg_user: c.0.into(), reg_pass: c.1.into(), typed_user: c.0.into(), typed_pass: c.1.into(), salt, b: other, a: *sp });
+                v.push(Case { layer: "special-private-keys", reg_user: c.0.into(), reg_pass: c.1.into(), typed_user: c.0.into(), typed_pass: c.1.into(), salt, b: *sp, a: *sp });
+            }
+        }
+    }
     // case variants: the client types any letter case of what was registered
     let (s0, b0, a0) = (ss[1], pks[7], pks[8]);
     for c in &creds(true) {
